@@ -33,6 +33,10 @@ def types_for(tier):
     # them as views; their offset tables are stored in memory order)
     A1, A2 = xt.Arr(xt.STR, (2, 2, 2), (1, 2, 0)), xt.Arr(xt.STR, (2, 3, 2), (2, 0, 1))
     extra = [xt.St(xt.Ref(A1), xt.Sc("i8")), xt.St(xt.Ref(universe.S_S), A2), xt.St(xt.URef(universe.S_S, A2), xt.Sc("i64")), xt.Arr(xt.Ref(A2), (2,))] + extra
+    # union references whose target itself holds a union reference (copying the outer one across buffers duplicates the target,
+    # which writes union references of its own meanwhile); the member indices of the two differ in some value alphabet
+    N1, N2 = xt.St(xt.URef(universe.S_S, universe.S_D2), xt.Sc("i64")), xt.St(xt.Sc("i64"), xt.URef(universe.S_D2, universe.S_S))
+    extra = [xt.URef(universe.S_S, N1), xt.URef(N1, universe.S_S), xt.St(xt.URef(universe.S_S, N2), xt.Sc("i8")), xt.Arr(xt.URef(N2, universe.S_S), (2,)), xt.St(xt.URef(N1, universe.S_S), xt.STR)] + extra
     seen = set(ts)
     for t in extra:
         if t not in seen:
